@@ -316,7 +316,7 @@ def _readers(case, w, which, V, probes, journal, stats):
     R = case["readers"]
     rng = random.Random(case["reader_seed"])
     rs = [w.node(lockstep_kinds=("sql", "sql.connect")) for _ in range(R)]
-    phase = ["open"] * R  # open -> dump -> region -> done
+    phase = ["open"] * R  # open -> hold -> dump -> region -> done
     state = ["idle"] * R
     results = [None] * R
     regions = [None] * R
@@ -330,6 +330,9 @@ def _readers(case, w, which, V, probes, journal, stats):
             if state[i] == "idle":
                 if phase[i] == "open":
                     n.send({"op": "open", "h": "h", "db": db})
+                elif phase[i] == "hold":
+                    # a partly consumed iteration that stays alive (an open cursor, i.e. a read lock) for the rest of the session
+                    n.send({"op": "read", "h": "h", "m": "all_features", "consume": 1})
                 elif phase[i] == "dump":
                     n.send({"op": "dump", "h": "h"})
                 else:
@@ -353,6 +356,8 @@ def _readers(case, w, which, V, probes, journal, stats):
             phase[i] = "done"
             continue
         if phase[i] == "open":
+            phase[i] = "hold"
+        elif phase[i] == "hold":
             phase[i] = "dump"
         elif phase[i] == "dump":
             results[i] = r["dump"]
